@@ -110,7 +110,7 @@ def bkey_header(prefix, row):
     return prefix + ("header_top" if row == 0 else f"header{row}_top")
 
 
-def _section_spec(elems, prefix, bcol, extra, hrows=1):
+def _section_spec(elems, prefix, bcol, extra, hrows=1, hauto=False):
     spec = {"n": NROW, "cols": ["s"] * NCOL, "header": "explicit"}
     rows_attrs = []
     for r in range(hrows):
@@ -120,6 +120,8 @@ def _section_spec(elems, prefix, bcol, extra, hrows=1):
         rows_attrs.append(h)
     if hrows == 1:
         spec["header_attrs"] = rows_attrs[0]
+        if hauto:   # RTFColumnHeader WITHOUT text: the header row is generated from the column names
+            spec["header"] = "default"
     else:   # several header rows, each with its own colours / fonts
         spec["header"] = "rows"
         spec["header_rows_attrs"] = rows_attrs
@@ -157,11 +159,12 @@ def make_spec(case):
         spec["footnote_attrs"].pop("border_color_bottom", None)
         return spec
     if kind == "single":
-        spec.update(_section_spec(elems, "", bcol, case.get("extra"), (case.get("hrows") or [1])[0]))
+        spec.update(_section_spec(elems, "", bcol, case.get("extra"), (case.get("hrows") or [1])[0], bool((case.get("hauto") or [0])[0])))
         return spec
     spec["kind"] = "multi"
     hrows = case.get("hrows") or [1] * case["nsec"]
-    spec["sections"] = [_section_spec(elems, "ABCD"[s], bcol, None, hrows[s]) for s in range(case["nsec"])]
+    hauto = case.get("hauto") or [0] * case["nsec"]
+    spec["sections"] = [_section_spec(elems, "ABCD"[s], bcol, None, hrows[s], bool(hauto[s])) for s in range(case["nsec"])]
     return spec
 
 
@@ -290,8 +293,8 @@ def eval_case(case: dict) -> dict:
         else:
             bump("refs-resolved-to-requested-rgb")
 
-    def check_run(text, props, where_prefix):
-        key = element_of(text, kind)
+    def check_run(text, props, where_prefix, key_override=None):
+        key = key_override or element_of(text, kind)
         # every reference, tagged or not, must at least be inside the table
         if key is None or key not in elems:
             for word in ("cf", "cb", "chcbpat"):
@@ -340,10 +343,27 @@ def eval_case(case: dict) -> dict:
                 for text, props in runs_of(bl.events):
                     check_run(text, props, f"page {pi + 1}")
             elif bl.kind == "row":
+                # a header generated from the column names (RTFColumnHeader without text) carries no tag: it is the row whose
+                # cells are exactly the column names c0, c1, ...; its section is the one of the next data row on the page
+                auto_prefix = None
+                if bl.cells and all(re.fullmatch(r"c\d+", c.text or "") for c in bl.cells):
+                    auto_prefix = ""
+                    if kind == "multi":
+                        auto_prefix = None
+                        for nb in pg.blocks[pg.blocks.index(bl) + 1:]:
+                            if nb.kind == "row":
+                                tg = docspec.tag_of(nb.cells[0].text) if nb.cells else None
+                                if tg and len(tg[0]) == 1 and tg[0] in "ABCD" and tg[2] is not None:
+                                    auto_prefix = tg[0]
+                                    break
                 for j, cell in enumerate(bl.cells):
                     key = None
                     for text, props in runs_of(cell.events):
-                        key = check_run(text, props, f"page {pi + 1}") or key
+                        ko = None
+                        if auto_prefix is not None and hkey(auto_prefix, 0, j) in elems:
+                            ko = hkey(auto_prefix, 0, j)
+                            bump("joined-auto-header-cells")
+                        key = check_run(text, props, f"page {pi + 1}", ko) or key
                     for side, (style, width, cfp) in cell.borders.items():
                         if cfp is None:
                             continue
@@ -478,7 +498,8 @@ def plan(run):
         "(quick: strides 1 and 7, every 4th document of a seed-rotated phase; thorough: all seven, every document, every section count); all 255 "
         "non-empty subsets of an 8-colour palette {first, neighbours of black, black, two equal-RGB names, last} x 3 slot layouts x kinds; "
         "documents with 2-3 column-header rows per section (single: flat list; 2/3/4 sections: nested lists), each row with its own colours "
-        "(quick: every 3rd document of a seed-rotated phase); each of the 10 fonts on each element x kinds; page_by / subline_by / paginated variants of the single kind. "
+        "(quick: every 3rd document of a seed-rotated phase); documents whose column header has NO text (row generated from the column names) "
+        "in the single section / in some or all sections, with its own colours, fonts and border colours (same phase rule); each of the 10 fonts on each element x kinds; page_by / subline_by / paginated variants of the single kind. "
         "non-trivial = at least one non-default colour or non-default font requested; distinct = distinct case")
     run.assumptions = [
         "the RTF reader is correct; runs are joined with the configured element by the sentinel tag in their text",
@@ -531,6 +552,19 @@ def plan(run):
             hr.append(rotation_case("single", d, hrows=[3 - d % 2], stride=1))
     run.layer("several-header-rows", "mc.props.c12:eval_case", hr, chunk=30, total=len(hr))
 
+    # ---- colours on components whose text is generated: RTFColumnHeader WITHOUT text (the row shows the column names) in
+    # single-section documents and in some / all sections of 2-4 section documents; every colour of a document is distinct,
+    # so the colours of such a header are used nowhere else
+    ha = []
+    for d in range((seed + 1) % (3 if quick else 1), 657, 3 if quick else 1):
+        ha.append(rotation_case("single", d, hauto=[1]))
+        ha.append(rotation_case("multi", d, 2, hauto=[[1, 1], [0, 1], [1, 0]][d % 3]))
+        ha.append(rotation_case("multi", d, 3, hauto=[[0, 1, 0], [1, 0, 1], [1, 1, 1]][d % 3]))
+        if not quick:
+            ha.append(rotation_case("multi", d, 4, hauto=[[1, 0, 0, 1], [0, 1, 1, 0]][d % 2]))
+            ha.append(rotation_case("single", d, hauto=[1], stride=1))
+    run.layer("headers-generated-from-column-names", "mc.props.c12:eval_case", ha, chunk=30, total=len(ha))
+
     # ---- palette subsets
     subs = []
     for mask in range(1, 256):
@@ -572,7 +606,7 @@ def plan(run):
             var.append(cs)
     run.layer("single-strategies-and-pages", "mc.props.c12:eval_case", var, chunk=30, total=len(var))
 
-    for need in ("kind=single", "kind=multi", "kind=figure", "refs-cf", "refs-chcbpat", "refs-cb", "font-refs", "refs-resolved-to-requested-rgb", "joined-later-header-row",
+    for need in ("kind=single", "kind=multi", "kind=figure", "refs-cf", "refs-chcbpat", "refs-cb", "font-refs", "refs-resolved-to-requested-rgb", "joined-later-header-row", "joined-auto-header-cells",
                  "joined-T", "joined-S", "joined-H", "joined-D", "joined-F", "joined-Z", "joined-PH", "joined-PF"):
         if not run.cnt.get(need):
             run.harness_errors.append({"layer": "vacuity", "case": None, "error": f"vacuity guard: counter {need!r} is zero"})
